@@ -2,6 +2,7 @@ import EvyV.Driver.Util
 import EvyV.Driver.FloatOps
 import EvyV.Model.Index
 import EvyV.Driver.MapDrv
+import EvyV.Driver.BcDrv
 /-
 Line protocol driver (core-only, compiled as `lean_exe evyv`).
 One request per line, one answer per line. See DESIGN.md §3.2.
@@ -45,6 +46,8 @@ def handle (line : String) : String :=
       | .error e => showIdxErr e
     | _, _, _ => "ERR bad args"
   | "map" :: rest => MapDrv.handle rest
+  | "bcverify" :: rest => BcDrv.handleVerify rest
+  | "symtab" :: rest => BcDrv.handleSymtab rest
   | _ => "ERR unknown request"
 
 partial def loop (hin hout : IO.FS.Stream) : IO Unit := do
